@@ -31,11 +31,43 @@ func (ex *Exec) finishCall(s *State, instr ssa.Instruction, res ssa.Value, stay 
 	if !stay {
 		fr.Idx++
 	}
+	ex.afterCall(s, instr, v)
+}
+
+// afterCall runs the "after" site items of the function under verification.
+func (ex *Exec) afterCall(s *State, instr ssa.Instruction, v Val) {
+	fr := s.top()
 	if fr.IsRoot && ex.con != nil && len(ex.con.Ghost) > 0 {
 		if ci, ok := instr.(ssa.CallInstruction); ok {
+			s.CurRet = nil
+			if v != nil {
+				if val, ok := instr.(ssa.Value); ok {
+					s.CurRet = &SV{V: v, T: val.Type()}
+				}
+			}
 			ex.runGhost(s, ex.siteName(instr, calleeName(ci.Common())), "after", nil)
 		}
 	}
+}
+
+// beforeCall records the call's arguments and runs the "before" site items.
+func (ex *Exec) beforeCall(s *State, instr ssa.Instruction, c *ssa.CallCommon, args []Val) {
+	fr := s.top()
+	if !fr.IsRoot || ex.con == nil || len(ex.con.Ghost) == 0 {
+		return
+	}
+	var sv []SV
+	i := 0
+	if c.IsInvoke() {
+		sv = append(sv, SV{V: args[0], T: c.Value.Type()})
+		i = 1
+	}
+	for j, a := range c.Args {
+		sv = append(sv, SV{V: args[i+j], T: a.Type()})
+	}
+	s.CurArgs = sv
+	s.CurRet = nil
+	ex.runGhost(s, ex.siteName(instr, calleeName(c)), "before", nil)
 }
 
 // siteName: stable call-site name "<calleeShort>.<n>" where n counts the
@@ -86,6 +118,7 @@ func (ex *Exec) doCall(s *State, instr ssa.Instruction, c *ssa.CallCommon, res s
 	if args == nil {
 		args = ex.callArgs(s, c)
 	}
+	ex.beforeCall(s, instr, c, args)
 	if c.IsInvoke() {
 		return ex.doInvoke(s, instr, c, res, args, stay)
 	}
@@ -139,7 +172,7 @@ func (ex *Exec) callFunc(s *State, instr ssa.Instruction, f *ssa.Function, bindi
 		if len(s.Stack) > 12 {
 			ex.fail("inline depth exceeded at %s", key)
 		}
-		nf := &Frame{Fn: f, Regs: map[ssa.Value]Val{}, Block: f.Blocks[0], LoopSeen: map[*ssa.BasicBlock]bool{}, RetTo: res, RetStay: stay}
+		nf := &Frame{Fn: f, Regs: map[ssa.Value]Val{}, Block: f.Blocks[0], LoopSeen: map[*ssa.BasicBlock]bool{}, RetTo: res, RetStay: stay, CallInstr: instr}
 		if len(args) != len(f.Params) {
 			ex.fail("inline %s: %d args for %d params", key, len(args), len(f.Params))
 		}
@@ -206,6 +239,10 @@ func (ex *Exec) doInvoke(s *State, instr ssa.Instruction, c *ssa.CallCommon, res
 		st := s.clone()
 		st.assume(Eq(ITag(recv), IntLit(int64(ex.g.tags.tag(t)))))
 		st.Path = append(st.Path, fmt.Sprintf("dyn:%s", shortPkg(typeKey(t))))
+		if !ex.g.feasible(st) {
+			// the dynamic type is excluded by the path condition
+			continue
+		}
 		payload := ex.ifacePayload(st, recv, t)
 		if p, ok := payload.(PtrV); ok {
 			// interface values never hold typed nil pointers (enforced at
